@@ -25,6 +25,7 @@ package retry
 //@ func IsRetryableError
 //@   function
 //@   ensures[C17 nil-is-not-retryable] err == nil ==> !result
+//@   ensures[C17 the-transient-network-failures-are-retryable-by-their-text] err != nil && (contains(strings.ToLower(err.Error()), "connection refused") || contains(strings.ToLower(err.Error()), "connection reset") || contains(strings.ToLower(err.Error()), "i/o timeout") || strings.ToLower(err.Error()) == "eof" || hasSuffix(strings.ToLower(err.Error()), ": eof")) ==> result
 //@
 //@ func isHTTPStatusRetryable
 //@   function
